@@ -3,7 +3,7 @@ C15 - results depend only on text and settings, not on what ran before.
 
 Explicit enumeration of event histories on the *process-global* state of the library (MasterConfig
 defaults, TRS cache content, TRS._USE_CACHE, objects kept alive, previously returned dicts/lists):
-every sequence of up to 3 (quick) / 4 (thorough) events from a menu of 19, followed by a probe battery
+every sequence of up to 3 (quick) / 4 (thorough) events from a menu of 20, followed by a probe battery
 whose observations must equal those of the same battery in a *fresh interpreter* started with the
 MasterConfig values in force at probe time; then MasterConfig is restored and the battery must equal
 the pristine one.
@@ -23,7 +23,7 @@ STATES_FROM_OUTCOMES = True    # distinct canonical global states reached
 LEVEL = 'model_checking'
 TECHNIQUE = ('exhaustive enumeration of event histories on process-global state (defaults, TRS cache, cache switch, mutated return '
              'values, live objects) followed by a probe battery; differential oracle = same battery in a fresh interpreter')
-LEVEL_TEXT = ('All histories of up to 3 (quick) / 4 (thorough) events out of 19 - re-use of one caller-held Config object with per-call overrides, parse other descriptions whose TRS strings collide '
+LEVEL_TEXT = ('All histories of up to 3 (quick) / 4 (thorough) events out of 20 - copy_all parses of multi-section texts whose wording recurs in the probes, re-use of one caller-held Config object with per-call overrides, parse other descriptions whose TRS strings collide '
               'with the probes up to direction letters, set/restore each MasterConfig default, clear / disable / enable / pre-warm the '
               'TRS cache, mutate every dict and list previously returned by the conversion functions, create objects under other '
               'defaults and keep them alive - are executed in one process and followed by a 60-observation probe battery compared with '
@@ -79,6 +79,15 @@ def ev_parse_modes():
     _p.PLSSDesc('Sec 14: NE/4, T154N-R97W', layout='desc_STR')
     t = _p.Tract('N/2 of Lot 1, NE', trs='154n97w14', config='clean_qq,suppress_lot_divs,qq_depth.3', parse_qq=True)
     t.parse(clean_qq=False, qq_depth=1)
+
+
+def ev_copy_all_multisec():
+    _p.PLSSDesc('Sections 1 - 3: That part lying north of the river')               # no Twp/Rge: deduced copy_all
+    _p.PLSSDesc('Township 154, Range 97 West, Sections 1 - 3: Lot 1', layout='copy_all', parse_qq=True)
+    _p.PLSSDesc('T154N-R97W Sec 14 NE/4, Sec 15: W/2', config='sec_colon_required')   # chunk-level fallback
+    _p.find_sec('Sections 1 - 3: NE/4, Sec 1 - 3, 5')
+    d = _p.PLSSDesc('T154N-R97W Sec 1 - 3, 5: NE/4')
+    d.parse(layout='copy_all')
 
 
 def ev_ns_s():
@@ -188,7 +197,7 @@ def ev_shared_config():
     d2.parse(default_ns='s', default_ew='e', parse_qq=True)
 
 
-EVENTS = [ev_shared_config, ev_parse_other_dirs, ev_parse_dirless, ev_parse_same_text_other_cfg, ev_parse_ocr, ev_parse_modes, ev_ns_s, ev_ns_n, ev_ew_e, ev_ew_w, ev_clear,
+EVENTS = [ev_shared_config, ev_copy_all_multisec, ev_parse_other_dirs, ev_parse_dirless, ev_parse_same_text_other_cfg, ev_parse_ocr, ev_parse_modes, ev_ns_s, ev_ns_n, ev_ew_e, ev_ew_w, ev_clear,
           ev_nocache, ev_cache, ev_warm, ev_mutate_dicts, ev_mutate_returned, ev_keep_objects, ev_sort_kept, ev_reparse_kept]
 NAMES = [e.__name__[3:] for e in EVENTS]
 
